@@ -34,6 +34,10 @@ CLAIMED = {
          "Decides per path, which covers every cut and fault offset: no error produced by a callee in the decoder can be non-nil while the enclosing function returns nil, except at the one EOF-class-guarded chain end. A dropped or swallowed error is visible in the CFG on every input that reaches it; the tests only sample offsets.",
          "Trusted: go/ssa CFG; hash.Hash.Write never fails; fmt.Errorf/errors.New never return nil; stdlib sentinel errors are non-nil; frozen exception fill/Read (n > 0 => err = nil) shape-checked on every run. Not decided: content of the partial File beyond C03-6.",
          "DESIGN.md 4 C11"),
+ "C04": ("other", "who-reads census, read-feed pairing by structural access-path equality and bound algebra, hash typestate, verdict dominance, header-layout table agreement, encoder hash/output pairing (SSA + syntax)",
+         "Decides the structural conditions the CRC verdicts rest on for every path: every byte taken from the reader is fed to the running checksum, every integrity verdict is a zero-residue test on a fed hash (or a documented exemption edge), the three header layouts agree, the encoder hashes what it writes. Together with C14 and the CRC burst theorem this gives the detection clause on paper; the input-output statement itself is not observed.",
+         "Trusted: io.ReadFull/binary.Read/io.CopyN/io.Reader contracts as summarised; CRC burst-error theorem. Not decided: the quantified corruption statement as an input-output fact; corruptions that alter which bytes are parsed are argued on paper only.",
+         "DESIGN.md 4 C04"),
 }
 
 NOT_APPLICABLE = {
